@@ -21,13 +21,20 @@ type Case struct {
 }
 
 type Gen struct {
-	R      *Rng
-	MarkID uint64
-	Now    time.Time
-	S      Settings
+	R       *Rng
+	NoMarks bool // concurrent runs: marshalers / hooks must not write the global trace
+	MarkID  uint64
+	Now     time.Time
+	S       Settings
 }
 
-func (g *Gen) mark() Op { g.MarkID++; return Op{K: "mark", ID: g.MarkID} }
+func (g *Gen) mark() Op {
+	if g.NoMarks {
+		return Op{K: "mark", ID: 0}
+	}
+	g.MarkID++
+	return Op{K: "mark", ID: g.MarkID}
+}
 
 func (g *Gen) GenSettings() Settings {
 	r := g.R
@@ -324,6 +331,9 @@ func (g *Gen) genCops(depth, n int) []Cop {
 	}
 	return append(out, hooks...)
 }
+
+// GenCopsPublic exposes the context-op generator to other drivers.
+func (g *Gen) GenCopsPublic(depth, n int) []Cop { return g.genCops(depth, n) }
 
 func (g *Gen) GenCase(depth int) *Case {
 	r := g.R
